@@ -100,16 +100,23 @@ impl Prop for C09 {
                     out.push(viol("strict-roundtrip", format!("printed {:?}", r.to_string())));
                 }
             }
+            // what the field reader sees as the first entry / first relation of s
+            let first_entry = strict.as_ref().ok().and_then(|r| r.entries().next());
             if let Ok(e) = Entry::from_str(s) {
                 let p = e.to_string();
                 if !s.contains(&p) || strict.is_err() {
                     out.push(viol("entry-reader", format!("printed {:?} strict ok={}", p, strict.is_ok())));
+                } else if first_entry.as_ref().map(|x| x.to_string()) != Some(p.clone()) {
+                    out.push(viol("entry-reader", format!("printed {:?}, but the first entry of the field is {:?}", p, first_entry.as_ref().map(|x| x.to_string()))));
                 }
             }
             if let Ok(e) = Relation::from_str(s) {
                 let p = e.to_string();
+                let first_rel = first_entry.as_ref().and_then(|x| x.relations().next()).map(|x| x.to_string());
                 if !s.contains(&p) || strict.is_err() {
                     out.push(viol("relation-reader", format!("printed {:?} strict ok={}", p, strict.is_ok())));
+                } else if first_rel != Some(p.clone()) {
+                    out.push(viol("relation-reader", format!("printed {:?}, but the first relation of the field is {:?}", p, first_rel)));
                 }
             }
             out
